@@ -252,6 +252,7 @@ def finish(rep, obls, pf, technique, assumptions=()):
         if kf:
             print('KNOWN-FINDING: property=%s %s' % (rep.pid, kf))
             rep.known.append(kf)
+            o.known_finding = kf
             continue
         path, tag = replay.make_replay(rep, o)
         line = 'VIOLATION property=%s replay=%s' % (rep.pid, path)
@@ -272,7 +273,8 @@ def finish(rep, obls, pf, technique, assumptions=()):
 
 def write_evidence(rep, technique, assumptions):
     obls = rep.obls
-    counted = [o for o in obls if not o.bounded]
+    # obligations that fail as a recorded known finding are reported as findings, not counted among the proved ones
+    counted = [o for o in obls if not o.bounded and not getattr(o, 'known_finding', None)]
     bounded = [o for o in obls if o.bounded]
     disc = [o for o in counted if o.status == 'discharged']
     by_solver = {}
@@ -299,6 +301,7 @@ def write_evidence(rep, technique, assumptions):
             'cover_checks': {'total': len(rep.covers), 'sat': cov_ok},
             'undecided_functions': [{'function': f, 'reason': w} for f, w in rep.undecided],
             'known_findings_hit': rep.known,
+            'known_finding_obligations': [{'name': o.name, 'answer': o.answer, 'finding': o.known_finding} for o in obls if getattr(o, 'known_finding', None)],
             'dropped_by_extraction': DROPPED,
             'per_obligation': [{'name': o.name, 'status': o.status, 'answer': o.answer, 'solver': o.solver, 's': round(o.seconds, 3)} for o in obls],
             'technique': technique,
